@@ -59,6 +59,13 @@ pub fn spec_to_bytes(spec: &str) -> Vec<u8> {
     out
 }
 
+/// `R <id> <input>`: printed BEFORE a case is executed.  Should the process die inside the case
+/// (abort on allocation failure, stack overflow, SIGBUS on a mapping), the check finds the input
+/// that was running in the last `R` line of the trace and reports it as the failing input.
+pub fn running(id: &str, input: &str) {
+    println!("R {id} {input}");
+}
+
 pub fn quiet_panics() {
     std::panic::set_hook(Box::new(|_| {}));
 }
